@@ -43,9 +43,11 @@ def pairUp : List HVal → List (HVal × HVal)
   | k :: v :: rest => (k, v) :: pairUp rest
   | _ => []
 
-def dedupH (eq : HVal → HVal → Bool) : List HVal → List HVal
-  | [] => []
-  | x :: xs => let r := dedupH eq xs; x :: r.filter (fun y => !eq x y)
+/-- `s.add(x)`: the first of several `==`-equal members stays (the shape of the pure model's `setAdd` / `mkSet`) -/
+def setAddH (eq : HVal → HVal → Bool) (acc : List HVal) (x : HVal) : List HVal :=
+  if acc.any (fun y => eq y x) then acc else acc ++ [x]
+
+def dedupH (eq : HVal → HVal → Bool) (xs : List HVal) : List HVal := xs.foldl (setAddH eq) []
 
 /-- `d[k] = v` keyed by `eq`: the first key object stays, the value is replaced -/
 def dictSetH (eq : HVal → HVal → Bool) : List (HVal × HVal) → HVal → HVal → List (HVal × HVal)
@@ -55,16 +57,23 @@ def dictSetH (eq : HVal → HVal → Bool) : List (HVal × HVal) → HVal → HV
 def mkDictH (eq : HVal → HVal → Bool) (kvs : List (HVal × HVal)) : List (HVal × HVal) :=
   kvs.foldl (fun d kv => dictSetH eq d kv.1 kv.2) []
 
+/-- `==` on two store values: Python `==` on what they read as -/
+def eqH (cs : List Cell) (fuel : Nat) (a b : HVal) : Bool :=
+  match denote cs fuel a, denote cs fuel b with
+  | some x, some y => Obj.pyEq x y
+  | _, _ => a == b
+
+/-- can the store value be hashed? -/
+def hshH (w : World) (cs : List Cell) (fuel : Nat) (a : HVal) : Bool :=
+  match denote cs fuel a with
+  | some x => hashable w x
+  | none => false
+
 /-- put the results into the cell that is going to be allocated; sets and dict keys need
 hashable members (`TypeError: unhashable`), compared with `==` -/
 def assemble (w : World) (fuel : Nat) (sh : Shape) (ys : List HVal) : M Cell := fun st =>
-  let den := denote st.cells fuel
-  let eq : HVal → HVal → Bool := fun a b => match den a, den b with
-    | some x, some y => Obj.pyEq x y
-    | _, _ => a == b
-  let hsh : HVal → Bool := fun a => match den a with
-    | some x => hashable w x
-    | none => false
+  let eq := eqH st.cells fuel
+  let hsh := hshH w st.cells fuel
   match sh with
   | .coll k =>
       if k.isSet then (if ys.all hsh then (some (.coll k (dedupH eq ys)), st) else (none, st))
@@ -158,7 +167,7 @@ def survivors (c0 cur : List (HVal × HVal)) : List HVal :=
 def exec (w : World) (fuel : Nat) (rec : Rec) : Prog → M HVal
   | .fail => raise
   | .unmodelled => fun st => (none, { st with unmod := true })
-  | .ident v => bind (logPass v) fun _ => ret v
+  | .ident v => bind (logIdent v) fun _ => ret v
   | .leaf o => ret (.leaf o)
   | .fresh o => inject o
   | .build det doomed sh tasks => bind (buildLoc w fuel rec det doomed sh tasks) fun lc => ret (.ref lc.1)
